@@ -20,6 +20,7 @@ import json
 import os
 import shutil
 import tempfile
+import time
 
 import common
 
@@ -589,7 +590,8 @@ def expand(ctx, drv, sc, limit):
         for c, _lim in base[:2]:
             old_bytes, stale = drv.prepare(c)
             _d, rec, _f, _w, _e = drv.save_with(c, old_bytes, stale, None)
-            for f, o in enumerate(rec.ops):
+            for f in pick_calls(rec.ops, 8):
+                o = rec.ops[f]
                 if o[0] != "close":
                     out.append((dict(c, name="%s:fault-at-%d-%s" % (c["name"], f, o[0]), fault=f), min(limit, 24)))
     return out
@@ -701,11 +703,38 @@ def op_names(ops):
     return [o[0] + ":" + ",".join(str(x) for x in o[1:] if not isinstance(x, bytes)) for o in ops]
 
 
+MAX_CALLS = 14          # calls of one save used as crash / fault positions (all of them when there are fewer)
+MAX_POINTS = 420        # crash points per scenario
+MAX_VIOLATIONS = 5      # a scenario stops at that many failing crash points
+
+
+def pick_calls(ops, cap=MAX_CALLS):
+    """Indexes of the calls used as positions when a save issues many of them (e.g. a streaming
+    writer): the first ones, the last ones, everything that is not a plain write, and writes at even
+    distances in between."""
+    n = len(ops)
+    if n <= cap:
+        return list(range(n))
+    keep = {0, 1, 2, n - 1, n - 2}
+    keep |= {i for i, o in enumerate(ops) if o[0] not in ("write", "os-write")}
+    keep |= {i + 1 for i in list(keep) if i + 1 < n}      # ... and the call right after each of them
+    writes = [i for i in range(n) if i not in keep]
+    room = max(0, cap - len(keep))
+    if writes and room:
+        step = max(1, len(writes) // room)
+        keep |= set(writes[::step][:room])
+    return sorted(keep)
+
+
 def crash_points(ctx, rec_full, limit):
     pts = []
     n = len(rec_full.ops)
     pend = list(rec_full.pending_before) + [rec_full.final_pending]
-    for k in range(n + 1):
+    ks = pick_calls(rec_full.ops) + [n]
+    if n > MAX_CALLS:
+        ctx.count("calls-sampled")
+        limit = min(limit, 24)
+    for k in ks:
         p = pend[k]
         if p <= limit:
             js = range(p + 1)
@@ -716,6 +745,13 @@ def crash_points(ctx, rec_full, limit):
             js = sorted(s)
         for j in js:
             pts.append((k, j))
+    if len(pts) > MAX_POINTS:
+        # keep every (k, 0) and (k, all pending), thin out the rest evenly
+        must = [x for x in pts if x[1] == 0 or x[1] == pend[x[0]]]
+        rest = [x for x in pts if not (x[1] == 0 or x[1] == pend[x[0]])]
+        step = max(1, len(rest) // max(1, MAX_POINTS - len(must)))
+        pts = sorted(set(must + rest[::step]))
+        ctx.count("points-sampled")
     return pts
 
 
@@ -786,7 +822,11 @@ def run_scenario(ctx, drv, sc, limit, cases, only_crash=None):
     ctx.count("ops:" + (",".join(o[0] for o in ops) or "none"))
     pts = crash_points(ctx, full, limit) if only_crash is None else [tuple(only_crash)]
     obs = []
+    nbad = 0
     for (k, j) in pts:
+        if nbad >= MAX_VIOLATIONS or (only_crash is None and time.time() > ctx.extra.get("deadline", 1e18)):
+            ctx.count("scenario-cut-short")
+            break
         d, rec, files, _want, err = drv.save_with(sc, old_bytes, stale, (k, j), fault)
         ctx.traces += 1
         tgt = files.get(TARGET)
@@ -811,8 +851,9 @@ def run_scenario(ctx, drv, sc, limit, cases, only_crash=None):
         ctx.count("crash-after:%s" % (ops[k - 1][0] if 0 < k <= len(ops) else "nothing" if k == 0 else "end"))
         bad = judge(loaded, load_err, expect_old, expect_new, ops, tgt, new_bytes, stale)
         if bad:
+            nbad += 1
             ctx.violation(bad[0], bad[1], {
-                "scenario": sc, "crash": [k, j], "recorded_ops": op_names(ops),
+                "scenario": sc, "crash": [k, j], "recorded_ops": op_names(ops)[:40],
                 "storage_file_after_crash": None if tgt is None else tgt.decode("utf-8", "replace")[:300],
                 "load_error": load_err})
         if fault is None and k == len(ops) and load_err is None and loaded != expect_new and not bad:
@@ -844,9 +885,19 @@ def run(ctx):
     cases = []
     try:
         scs = [dict(c["scenario"], name="corpus:" + f) for f, c in common.load_corpus(ctx.pid)] + scenarios(ctx)
+        ctx.extra["deadline"] = time.time() + (150 if not ctx.thorough else 1200)
+        failing = 0
         for sc0 in scs:
+            if time.time() > ctx.extra["deadline"] or failing >= 6:
+                ctx.count("scenarios-skipped")      # out of time, or enough failing scenarios to report
+                continue
             for sc, lim in expand(ctx, drv, sc0, limit):
+                nv = len(ctx.violations)
                 run_scenario(ctx, drv, sc, lim, cases)
+                failing += len(ctx.violations) > nv
+                if time.time() > ctx.extra["deadline"] or failing >= 6:
+                    break
+        del ctx.extra["deadline"]
     finally:
         drv.close()
     items = []
@@ -856,7 +907,7 @@ def run(ctx):
                "Definition cases : list (option bytes * option bytes * option nat * list op * list (nat * nat * desc * desc)) := [\n%s\n].\n"
                "Eval vm_compute in (bad_indices check_case cases).\n" % term)
         items.append(("cases_%03d" % i, txt))
-    res = common.coq_run_many(items, ctx.pid)
+    res = common.coq_run_many(items, ctx.pid, timeout=150 if not ctx.thorough else 600)
     for name, (rc, out) in sorted(res.items()):
         bad = common.parse_eval_nat_list(out) if rc == 0 else None
         sc, _t, names = cases[int(name.split("_")[1])]
